@@ -25,8 +25,8 @@ VARIABLES hist, env
 vars == <<hist, env>>
 
 NameV == <<86>>
-NameW == <<86, 87>>      \* "VW": V is a proper prefix of the second name
-Values == { <<>>, <<120>>, <<112, 32, 113>>, <<39>>, <<36, 86, 87>>, <<35>>, <<97, 9, 98>>, <<97, 61, 98, 61>> }   \* the last one: "a=b=" (only the first = separates name and value)
+NameW == <<86, 82>>      \* "VR": V is a proper prefix of the second name, which ends in R (as the @R suffix does)
+Values == { <<>>, <<120>>, <<112, 32, 113>>, <<39>>, <<36, 86, 82>>, <<35>>, <<97, 9, 98>>, <<97, 61, 98, 61>> }   \* the last one: "a=b=" (only the first = separates name and value)
 Other(n) == IF n = NameV THEN NameW ELSE NameV
 
 Prefix(n) == EnvWord \o <<SP>> \o n \o <<EQ>>
@@ -37,10 +37,10 @@ Vocabulary ==
   \cup { Prefix(n) \o <<121, SP>> \o Other(n) \o <<EQ, DOLLAR>> \o n : n \in {NameV, NameW} }  \* env V=y W=$V (W gets the OLD V)
 
 ProbeLines == << <<DOLLAR, 86>>,                                         \* $V
-                 <<DOLLAR, LBRACE, 86, 87, RBRACE>>,                         \* ${VW}
-                 <<DOLLAR, 86, DOLLAR, 86, 87>>,                             \* $V$VW
+                 <<DOLLAR, LBRACE, 86, 82, RBRACE>>,                         \* ${VR}
+                 <<DOLLAR, 86, DOLLAR, 86, 82>>,                             \* $V$VR
                  <<QUOTE, DOLLAR, 86, QUOTE>>,                           \* '$V'
-                 <<120, DOLLAR, LBRACE, 86, RBRACE, 121, SP, DOLLAR, 86, 87>> >>   \* x${V}y $VW
+                 <<120, DOLLAR, LBRACE, 86, RBRACE, 121, SP, DOLLAR, 86, 82>> >>   \* x${V}y $VR
 
 Probe(line, e) == [line |-> line, ok |-> Parse(line, e).ok, args |-> Parse(line, e).args,
                    jd |-> Judged(line), rx |-> FALSE, val |-> <<>>]
@@ -70,7 +70,7 @@ InvFold       == env = ExecLines(BaseEnv, hist, 1)
 InvAppendOnly == Len(env) >= Len(BaseEnv) + Len(hist) /\ SubSeq(env, 1, Len(BaseEnv)) = BaseEnv
 \* the stored value comes back as exactly one word, whatever it contains
 InvNoReexpand == /\ Parse(<<DOLLAR, 86>>, env).args = << Lookup(env, NameV) >>
-                 /\ Parse(<<DOLLAR, LBRACE, 86, 87, RBRACE>>, env).args = << Lookup(env, NameW) >>
+                 /\ Parse(<<DOLLAR, LBRACE, 86, 82, RBRACE>>, env).args = << Lookup(env, NameW) >>
 InvRegexp     == RegexpLiteral(Parse(<<DOLLAR, LBRACE, 86, AT, BIGR, RBRACE>>, env).args[1]) = [ok |-> TRUE, v |-> Lookup(env, NameV)]
 \* the last line's effect: a quoted value is stored byte for byte
 InvLastQuoted ==
